@@ -132,10 +132,10 @@ def build_loader(variant: str, store: Store, cfg: dict, root: Path | None):
         templates = {nm: source_text(sp, nm, v) for (sp, nm), v in store.ver.items()}
         store.templates = templates
         return CachingDictLoader(templates, auto_reload=ar, namespace_key="ns", capacity=cap)
-    if variant in ("fs", "fsl"):
+    if variant in ("fs", "fsl", "fsb"):
         assert root is not None
         for (sp, nm), v in store.ver.items():
-            write_file(root, sp, nm, v, variant == "fsl")
+            write_file(root, sp, nm, v, variant == "fsl", variant == "fsb")
         if variant == "fsl":
             # a search path of several directories: a modification is a new file in a directory searched earlier
             return CachingFileSystemLoader([root / f"p{i}" for i in range(LAYERS, 0, -1)], auto_reload=ar, capacity=cap)
@@ -146,14 +146,16 @@ def build_loader(variant: str, store: Store, cfg: dict, root: Path | None):
 LAYERS = 9
 
 
-def write_file(root: Path, sp: str, nm: str, v: int, layered: bool = False) -> None:
+def write_file(root: Path, sp: str, nm: str, v: int, layered: bool = False, backdated: bool = False) -> None:
     p = root / nm
     if layered:
         for i in range(1, LAYERS + 1):
             (root / f"p{i}").mkdir(exist_ok=True)
         p = root / f"p{min(v, LAYERS)}" / nm
     p.write_text(source_text(sp, nm, v))
-    os.utime(p, (1_000_000 + v, 1_000_000 + v))
+    # backdated: every modification leaves the file with an older time stamp (a restore from a backup)
+    stamp = 1_000_000 - v if backdated else 1_000_000 + v
+    os.utime(p, (stamp, stamp))
 
 
 # --------------------------------------------------------------------------- replay
@@ -178,7 +180,7 @@ def replay(hist: list[dict], variant: str, cfg: dict, scratch: Path, env_globals
     keys = [(sp, nm) for sp in cfg["spaces"] for nm in cfg["names"]]
     store = Store(keys)
     root = None
-    if variant in ("fs", "fsl"):
+    if variant in ("fs", "fsl", "fsb"):
         root = scratch / f"fs-{os.getpid()}"
         shutil.rmtree(root, ignore_errors=True)
         root.mkdir(parents=True)
@@ -186,7 +188,7 @@ def replay(hist: list[dict], variant: str, cfg: dict, scratch: Path, env_globals
     env = Environment(loader=loader, globals={"eg": "E"} if env_globals else None)
     coros: dict[int, object] = {}
     held: list = []
-    atomic_async = variant in ("dict", "fs", "fsl")
+    atomic_async = variant in ("dict", "fs", "fsl", "fsb")
     done_async: dict[int, dict] = {}
 
     def globs(g):
@@ -247,14 +249,14 @@ def replay(hist: list[dict], variant: str, cfg: dict, scratch: Path, env_globals
             elif op["op"] == "modify":
                 k = (op["sp"], op["nm"])
                 store.ver[k] += 1
-                if variant in ("fs", "fsl"):
-                    write_file(root, k[0], k[1], store.ver[k], variant == "fsl")
+                if variant in ("fs", "fsl", "fsb"):
+                    write_file(root, k[0], k[1], store.ver[k], variant == "fsl", variant == "fsb")
                 elif variant == "dict":
                     store.templates[k[1]] = source_text(k[0], k[1], store.ver[k])
             elif op["op"] == "delete":
                 k = (op["sp"], op["nm"])
                 store.ver[k] = 0
-                if variant == "fs":
+                if variant in ("fs", "fsb"):
                     (root / k[1]).unlink()
                 elif variant == "fsl":
                     for i in range(1, LAYERS + 1):
@@ -499,7 +501,7 @@ def check(tier: str) -> int:
     for ar, cap, n in real:
         run_config(chk, f"fs-ar{ar[0]}-cap{cap}",
                    constants(AutoReload=ar, Fresh="TRUE", Capacity=cap, MaxOps=n, **one),
-                   ["fs", "fsl"], flt=real_loader_filter)
+                   ["fs", "fsl", "fsb"], flt=real_loader_filter)
         run_config(chk, f"dict-ar{ar[0]}-cap{cap}",
                    constants(AutoReload=ar, Fresh="FALSE", Capacity=cap, MaxOps=n, **one),
                    ["dict"], flt=real_loader_filter)
